@@ -109,9 +109,9 @@ ARRAY_DOC = re.compile(r'array|matrix|vector|list|tuple|\bN\b|NxN|Nx|sequence', 
 # ----------------------------------------------------------------------------------------------- package loading
 
 class Mod:
-    def __init__(self, name, path, is_pkg):
+    def __init__(self, name, path, is_pkg, src=None):
         self.name, self.path, self.is_pkg = name, path, is_pkg
-        self.tree = ast.parse(open(path).read(), path)
+        self.tree = ast.parse(open(path).read() if src is None else src, path)
         self.defs, self.stars, self.modalias, self.objalias = {}, [], {}, {}
         pkg = name if is_pkg else name.rsplit('.', 1)[0]
         for st in self.tree.body:
@@ -417,6 +417,7 @@ class Walker:
         self.tree = ('seq', self.cur)
         if self.top.recursive:
             self.tree = ('loop', weaken(self.tree))
+        self.tree = share_stores(self.tree)
 
     # ---- plumbing
     def tmp(self, what='t'):
@@ -706,7 +707,11 @@ class Walker:
         if isinstance(target, ast.Name):
             r = self.resolve(target.id, sc)
             if not (r and r[0] == 'local'):
-                return          # store to a global: not an array of the caller
+                # store to a module-level name: afterwards the value is reachable through something the IR does not
+                # track, so it must not be (derived from) a caller's array
+                if S or C:
+                    self.unknown(target, uniq(S + C), 'store to global ' + target.id)
+                return
             x = r[1].ir(target.id)
             if value is not None:
                 fr = self.func_targets(value, sc)
@@ -774,6 +779,8 @@ class Walker:
                         if (val[0] or val[1]) and not self.is_array_name(t.id, sc):
                             self.has_c.add(cn(x))
                             self.emit(('alias', cn(x), uniq(val[0] + val[1]), True))    # lst += [W]
+                else:
+                    self.unknown(st, uniq(val[0] + val[1]) + self.all_param_names(), 'augmented assignment to global ' + t.id)
             else:
                 if isinstance(t, ast.Subscript):
                     self.ev(t.slice, sc)
@@ -842,8 +849,15 @@ class Walker:
             self.ev(st.test, sc)
             if st.msg is not None:
                 self.ev(st.msg, sc)
+        elif isinstance(st, ast.Delete):
+            for t in st.targets:
+                for x in (t.elts if isinstance(t, (ast.Tuple, ast.List)) else [t]):
+                    if isinstance(x, (ast.Subscript, ast.Attribute)):       # del lst[0] / del obj.attr modify the object
+                        if isinstance(x, ast.Subscript):
+                            self.ev(x.slice, sc)
+                        self.write(self.ev(x.value, sc)[0], st, 'del')
         elif isinstance(st, (ast.Pass, ast.Break, ast.Continue, ast.Global, ast.Nonlocal, ast.Import, ast.ImportFrom,
-                             ast.FunctionDef, ast.Delete)):
+                             ast.FunctionDef)):
             pass        # nested defs are inlined where they are called; imports were read by the pre-pass
         else:
             # class definitions, match statements, async constructs ...: no rule
@@ -1149,12 +1163,34 @@ class Walker:
             return EMPTY
         return self.unknown(e, flat(vals), 'call of unknown global ' + name)
 
+    def risky_kw(self, e, view_ok=False):
+        """keywords that turn a read-only operation into an in-place / aliasing one: copy= (unless literally True),
+        inplace= / overwrite_*= (unless literally False), order-changing `subok` is harmless"""
+        for k in e.keywords:
+            a = k.arg or ''
+            lit = k.value.value if isinstance(k.value, ast.Constant) else '?'
+            if a == 'copy' and lit is not True and not view_ok:
+                return 'copy=' + ast.unparse(k.value)
+            if (a in ('inplace', 'in_place') or a.startswith('overwrite')) and lit is not False:
+                return a + '=' + ast.unparse(k.value)
+        return None
+
     def call_ext(self, d, e, sc):
         A, K, star = self.args_of(e, sc)
         vals = A + list(K.values())
         tail = d.split('.')[-1]
         if 'out' in K:
             self.write(K['out'][0], e, 'out=')
+        is_rand = d.startswith('numpy.random.') or d.startswith('random.') or d in ENTROPY_FUNCS or tail == 'rvs'
+        is_bct = d.startswith('bct.') or d.split('.')[0] == 'bct'
+        if star and not is_bct:
+            # arguments cannot be matched to positions (np.fill_diagonal(*args)): may write / alias any of them
+            if is_rand:
+                self.emit(('draw', 'globalRng' if d.startswith('numpy.') else ('pyRandom' if d.startswith('random.') else 'unknown'), d))
+            return self.unknown(e, flat(vals), 'call of %s with */** arguments' % d)
+        rk = self.risky_kw(e, view_ok=d in ('numpy.array', 'numpy.asarray', 'numpy.asanyarray'))
+        if rk and not is_bct and not is_rand:
+            return self.unknown(e, flat(vals), 'call of %s with %s' % (d, rk))
         if d.startswith('bct.') or d.split('.')[0] == 'bct':
             modn, fn = d.rsplit('.', 1)
             t = self.pkg.exports(modn).get(fn) if modn in self.pkg.mods else None
@@ -1230,10 +1266,15 @@ class Walker:
                 self.write(K['out'][0], e, 'out=')
             return EMPTY
         rv = self.ev(recv, sc)
-        A, K, _ = self.args_of(e, sc)
+        A, K, star = self.args_of(e, sc)
         vals = A + list(K.values())
         if 'out' in K:
             self.write(K['out'][0], e, 'out=')
+        rk = self.risky_kw(e, view_ok=(m == 'astype'))
+        if (star and m not in METHOD_STORE and m not in METHOD_INPLACE) or rk:
+            if m in DRAW_METHODS:
+                self.emit(('draw', 'unknown', 'method .%s on an object that is not a known generator' % m))
+            return self.unknown(e, flat([rv] + vals), 'method .%s with %s' % (m, rk or '*/** arguments'))
         if m in DRAW_METHODS:
             self.emit(('draw', 'unknown', 'method .%s on an object that is not a known generator' % m))
             if m == 'shuffle' and A:
@@ -1423,6 +1464,52 @@ def viewval(vals):
     return (flat(vals), uniq(sum((v[1] for v in vals), [])))
 
 
+def share_stores(tree):
+    """Two names may be bound to the same mutable container (`b = a`): a store through one (`b[0] = W`, IR
+    `alias b.c [W ..] keep`) must be visible through the other.  Alias classes are computed flow-insensitively over the
+    whole function (union of x with every source of every `alias x ys _`); every accumulating store into a contents name
+    is replicated for all contents names of its class."""
+    parent = {}
+
+    def find(x):
+        while parent.setdefault(x, x) != x:
+            parent[x] = parent[parent[x]]
+            x = parent[x]
+        return x
+
+    def collect(n):
+        k = n[0]
+        if k == 'seq':
+            for c in n[1]:
+                collect(c)
+        elif k == 'branch':
+            collect(n[1]); collect(n[2])
+        elif k == 'loop':
+            collect(n[1])
+        elif k == 'alias' and not n[3]:
+            for y in n[2]:
+                parent[find(n[1])] = find(y)
+    collect(tree)
+    classes = {}
+    for x in list(parent):
+        classes.setdefault(find(x), []).append(x)
+
+    def rewrite(n):
+        k = n[0]
+        if k == 'seq':
+            return ('seq', [rewrite(c) for c in n[1]])
+        if k == 'branch':
+            return ('branch', rewrite(n[1]), rewrite(n[2]))
+        if k == 'loop':
+            return ('loop', rewrite(n[1]))
+        if k == 'alias' and n[3] and n[1].endswith('.c') and n[1] in parent:
+            others = [z for z in classes[find(n[1])] if z != n[1] and z.endswith('.c')]
+            if others:
+                return ('seq', [n] + [('alias', z, n[2], True) for z in others])
+        return n
+    return rewrite(tree)
+
+
 def weaken(node):
     """A recursive function is modelled by re-entering one merged frame (its body under a `loop`, parameters
     additionally bound to the arguments of the recursive call).  Merging frames is sound only if no binding is
@@ -1597,6 +1684,9 @@ def alias_analyze(node, T, table, depth=0):
             Tc = alias_analyze(body, T0, table, depth + 1)
         except AliasFail as ex:
             raise AliasFail('line %s: call -> %s' % (node[4], ex))
+        for p, a in zip(params, node[3]):       # AliasIR.taintBack: the callee may have stored into what it was handed
+            if p in Tc:
+                T = T | set(a)
         return (T | {node[1]}) if RET in Tc else T - {node[1]}
     if k == 'seq':
         for c in node[1]:
@@ -1641,6 +1731,226 @@ def depth_nodes(node):
     return 1
 
 
+
+# ----------------------------------------------------------------------------------------------- translator self-test
+
+SELFTEST_MODULE = 'bct._selftest'
+# Synthetic functions translated on every run next to the real source.  `st_rej_*` modify (or may modify) an argument /
+# break the RNG discipline and MUST be rejected by the generated obligation; `st_acc_*` are controls that must be
+# accepted.  A self-test function whose verdict is not the expected one is a break of the check (the translator lost
+# its bias to fail), whatever the real source looks like.
+SELFTEST_SRC = """
+import random
+import numpy as np
+from numpy.random import rand as _imported_rand
+from bct.utils import binarize, get_rng
+from bct.algorithms.reference import randmio_und
+
+_ZZ = None
+
+def _st_put(box, W):
+    box.append(W)
+
+def st_rej_rng_helper_draws():
+    return np.random.rand()
+
+# ---- alias / write: must be rejected
+def st_rej_nan_to_num(W):
+    np.nan_to_num(W, copy=False)
+    return W
+
+def st_rej_two_names(W):
+    a = [0]
+    b = a
+    b[0] = W
+    a[0][0, 0] = 7
+
+def st_rej_del(ci):
+    del ci[0]
+
+def st_rej_callee_appends(W):
+    box = []
+    _st_put(box, W)
+    box[0][0, 0] = 5
+
+def st_rej_global(W):
+    global _ZZ
+    _ZZ = W
+    _ZZ[0, 0] = 3
+
+def st_rej_star_args(W):
+    args = (W, 0)
+    np.fill_diagonal(*args)
+
+def st_rej_fill_diagonal(W):
+    np.fill_diagonal(W, 0)
+
+def st_rej_view(W):
+    V = W.T
+    V[0, 0] = 1
+
+def st_rej_out_kw(W):
+    np.abs(W, out=W)
+
+def st_rej_out_pos(W):
+    np.multiply(W, 2, W)
+
+def st_rej_ufunc_at(W):
+    np.add.at(W, 0, 1)
+
+def st_rej_sort(W):
+    W.sort()
+
+def st_rej_rows(W):
+    for row in W:
+        row[0] = 1
+
+def st_rej_elem_aug(W):
+    x = W[0]
+    x += 1
+
+def st_rej_lambda(W):
+    f = lambda: W.fill(0)
+    f()
+
+def st_rej_getattr(W):
+    getattr(W, 'fill')(0)
+
+def st_rej_comprehension(W):
+    [r.fill(0) for r in W]
+
+def st_rej_try(W):
+    try:
+        W = W.copy()
+    except Exception:
+        pass
+    W[0, 0] = 1
+
+def st_rej_copy_false(W):
+    binarize(W, copy=False)
+
+def st_rej_astype_nocopy(W):
+    V = W.astype(float, copy=False)
+    V[0, 0] = 1
+
+def st_rej_matmul(W):
+    W @= W
+
+def st_rej_copyto(W):
+    np.copyto(W, 0)
+
+def st_rej_nested(W):
+    def clear():
+        W[0, 0] = 0
+    clear()
+
+def st_rej_shuffle(W, seed=None):
+    rng = get_rng(seed)
+    rng.shuffle(W)
+
+def st_rej_inplace_kw(W):
+    W.byteswap(inplace=True)
+
+def st_rej_setitem(W):
+    W.__setitem__(0, 0)
+
+def st_rej_unknown_np(W):
+    np.lib.stride_tricks.sliding_window_view(W, 2, writeable=True)[0] = 0
+
+def st_rej_break(W, k):
+    for i in range(k):
+        X = W
+        if i > 2:
+            break
+        X = np.zeros(3)
+    X[0] = 1
+
+# ---- alias / write: must be accepted
+def st_acc_copy(W):
+    W = W.copy()
+    W[0, 0] = 1
+    np.fill_diagonal(W, 0)
+    return W
+
+def st_acc_fresh(W):
+    A = np.zeros((3, 3))
+    A[0] = W[0, 0] * 2
+    return A + W
+
+def st_acc_list_of_copies(W):
+    lst = []
+    lst.append(W.copy())
+    lst[0][0, 0] = 1
+    return lst
+
+def st_acc_callee_appends_copy(W):
+    box = []
+    _st_put(box, W.copy())
+    box[0][0, 0] = 5
+
+def st_acc_binarize(W):
+    B = binarize(W, copy=True)
+    B[0, 0] = 0
+    return B
+
+# ---- RNG discipline: must be rejected
+def st_rej_rng_global(n, seed=None):
+    rng = get_rng(seed)
+    return rng.rand(n) + np.random.rand(n)
+
+def st_rej_rng_pyrandom(n, seed=None):
+    rng = get_rng(seed)
+    return rng.rand(n) + random.random()
+
+def st_rej_rng_noseed_call(R, seed=None):
+    rng = get_rng(seed)
+    return randmio_und(R, 1)
+
+def st_rej_rng_none_call(R, seed=None):
+    return randmio_und(R, 1, seed=None)
+
+def st_rej_rng_forgot(n, seed=None):
+    rng = get_rng()
+    return rng.rand(n)
+
+def st_rej_rng_reassigned(n, seed=None):
+    seed = None if n < 0 else seed
+    rng = get_rng(seed)
+    return rng.rand(n)
+
+def st_rej_rng_private_state(n, seed=None):
+    rng = np.random.RandomState()
+    return rng.rand(n)
+
+def st_acc_rng_helper_caller(n, seed=None):
+    # accepted on its own: the obligation that fails is the helper's (a seedless helper must not draw), and with it `okTable`
+    rng = get_rng(seed)
+    return rng.rand(n) + st_rej_rng_helper_draws()
+
+def st_rej_rng_imported(n, seed=None):
+    rng = get_rng(seed)
+    return _imported_rand(n)
+
+def st_rej_rng_reseed(n, seed=None):
+    np.random.seed(1)
+    return get_rng(seed).rand(n)
+
+def st_rej_rng_star(R, *a, seed=None):
+    return randmio_und(R, *a)
+
+# ---- RNG discipline: must be accepted
+def st_acc_rng_forward_rng(R, seed=None):
+    rng = get_rng(seed)
+    x = rng.rand()
+    return randmio_und(R, 1, seed=rng)
+
+def st_acc_rng_forward_seed(R, seed=None):
+    return randmio_und(R, 1, seed=seed)
+
+def st_acc_rng_anonymous(n, seed=None):
+    return get_rng(seed).rand(n)
+"""
+
 # ----------------------------------------------------------------------------------------------- driver
 
 SKIP_MODULES = {'bct.nbs_parallel': 'not part of the bct namespace (never imported by bct/__init__); dispatches through '
@@ -1655,6 +1965,7 @@ def lean_ident(s):
 
 def translate(repo):
     pkg = Package(repo)
+    pkg.mods[SELFTEST_MODULE] = Mod(SELFTEST_MODULE, '<selftest>', False, src=SELFTEST_SRC)
     FN.clear()
     for mn, m in pkg.mods.items():
         for fn in m.defs:
@@ -1670,7 +1981,8 @@ def translate(repo):
         return walkers[k]
 
     # ------------------------------------------------ C05
-    seedful = [k for k, i in FN.items() if i.has_seed and k[1] not in HAND_MODELLED and k[0] not in SKIP_MODULES]
+    seedful = [k for k, i in FN.items() if i.has_seed and k[1] not in HAND_MODELLED and k[0] not in SKIP_MODULES
+               and k[0] != SELFTEST_MODULE]
     todo, rng_set = list(seedful), []
     while todo:
         k = todo.pop()
@@ -1696,6 +2008,23 @@ def translate(repo):
     for n, d in rng.items():
         d['fails'] = uniq(rng_ok(d['skel'], d['has_seed'], table))
     res['rng'] = rng
+    # self-test skeletons: a separate table = real table + the synthetic functions (and what they call)
+    st_keys = [k for k in FN if k[0] == SELFTEST_MODULE and 'rng' in k[1]]
+    st_rng = {}
+    for k in st_keys:
+        w = walker(k, None)
+        st_rng[k[1]] = {'key': k, 'has_seed': FN[k].has_seed, 'skel': simp(proj_rng(w.tree, rng_names)),
+                        'expect': 'reject' if k[1].startswith('st_rej') else ('accept' if k[1].startswith('st_acc') else None)}
+    st_table = dict(table)
+    st_table.update({n: (d['has_seed'], d['skel']) for n, d in st_rng.items()})
+    res['selftest_failures'] = []
+    for n, d in st_rng.items():
+        d['fails'] = uniq(rng_ok(d['skel'], d['has_seed'], st_table))
+        if d['expect'] == 'reject' and not d['fails']:
+            res['selftest_failures'].append('RNG self-test %s was accepted (must be rejected)' % n)
+        if d['expect'] == 'accept' and d['fails']:
+            res['selftest_failures'].append('RNG self-test %s was rejected (%s)' % (n, d['fails']))
+    res['selftest_rng'] = st_rng
     # seedless public functions that draw from a process-global generator (outside C05: they accept no seed)
     other = []
     for name, k in sorted(public.items()):
@@ -1713,6 +2042,7 @@ def translate(repo):
     def variants_of(key):
         return [True, False] if FN[key].has_copy else [None]
     todo = [(k, v) for k in public.values() for v in variants_of(k)]
+    todo += [(k, None) for k in FN if k[0] == SELFTEST_MODULE and k[1].startswith('st_') and 'rng' not in k[1]]
     alias_set = []
     while todo:
         kv = todo.pop()
@@ -1740,7 +2070,8 @@ def translate(repo):
         ir = simp(proj_alias(w.tree, ids))
         alias[nm] = {'key': key, 'variant': v, 'id': ids[kv], 'params': sum(([p, cn(p)] for p in FN[key].aparams), []), 'ir': ir,
                      'public': key in pubkeys and public.get(key[1]) == key, 'unknowns': list(w.unknowns),
-                     'nodes': count_nodes(ir)}
+                     'nodes': count_nodes(ir),
+                     'selftest': (('reject' if key[1].startswith('st_rej') else 'accept') if key[0] == SELFTEST_MODULE and key[1].startswith('st_') else None)}
     atable = {d['id']: (d['params'], d['ir']) for d in alias.values()}
     w_of = {nm: walker(d['key'], d['variant']) for nm, d in alias.items()}
     res['not_covered_static'] = {}
@@ -1755,6 +2086,12 @@ def translate(repo):
             d['fails'] = [str(ex)]
         except RecursionError:
             d['fails'] = ['analysis recursion limit']
+        if d['selftest'] == 'reject' and not d['fails']:
+            res['selftest_failures'].append('alias self-test %s was accepted (must be rejected)' % nm)
+        if d['selftest'] == 'accept' and d['fails']:
+            res['selftest_failures'].append('alias self-test %s was rejected (%s)' % (nm, d['fails'][0]))
+        if d['key'][0] == SELFTEST_MODULE:
+            continue
         for ln, what in d['unknowns']:
             res['unknown_constructs'].append('%s:%s %s' % (d['key'][1], ln, what))
         d['opaque'] = ['%s:%s' % (ln, what) for ln, what in w_of[nm].opaque_ext]
@@ -1803,7 +2140,7 @@ def lean_rng(node, ind=2):
 
 
 def emit_rng(res, path):
-    L = ['import BctVerif.Model.RngIR',
+    L = ['import BctVerif.Props.C05',
          '/-! GENERATED by translate/effects.py from the bct sources -- do not edit; rewritten by every run of `./check C05`.',
          '    One RNG-effect skeleton per function with a `seed` parameter and per helper such a function calls,',
          '    and one obligation per function.  Meta-theorems: BctVerif/Props/C05.lean. -/',
@@ -1819,6 +2156,25 @@ def emit_rng(res, path):
     L.append('')
     L.append('/-- hypothesis of the meta-theorems: every function of the table is disciplined -/')
     L.append('theorem table_ok : okTable table = true := by decide +kernel')
+    L.append('')
+    L.append('/-- the meta-theorems of Props/C05.lean instantiated for the table generated from the current source -/')
+    L.append('theorem all_seeded_sound {f : String} {d : FnDecl} (hf : lookup table f = some d) (hs : d.hasSeed = true)')
+    L.append('    {w w\' : World} (h : Exec table .priv d.body w w\') : w\' = w := Bct.C05.disciplined_sound table_ok hf hs h')
+    L.append('theorem all_unseeded_sound {f : String} {d : FnDecl} (hf : lookup table f = some d) (hs : d.hasSeed = true)')
+    L.append('    {w w\' : World} (h : Exec table .glob d.body w w\') : w\'.pyGlobal = w.pyGlobal ∧ w\'.untracked = w.untracked :=')
+    L.append('  Bct.C05.unseeded_sound table_ok hf hs h')
+    L.append('')
+    L.append('/-! translator self-test: synthetic functions (translate/effects.py SELFTEST_SRC) translated with the same rules;')
+    L.append('    `st_rej_*` must be rejected, `st_acc_*` accepted -/')
+    for n, d in res['selftest_rng'].items():
+        L.append('def skel_%s : Stmt :=\n  %s\n' % (n, lean_rng(d['skel'], 4)))
+    L.append('def selftestTable : Table := table ++ [')
+    L.append(',\n'.join('  ("%s", ⟨%s, skel_%s⟩)' % (n, 'true' if d['has_seed'] else 'false', n) for n, d in res['selftest_rng'].items()) + ']')
+    L.append('')
+    for n, d in res['selftest_rng'].items():
+        if d['expect']:
+            L.append('theorem selftest_%s : ok selftestTable "%s" = %s := by decide +kernel' % (n, n, 'false' if d['expect'] == 'reject' else 'true'))
+    L.append('theorem selftest_table_rejected : okTable selftestTable = false := by decide +kernel')
     L.append('')
     L.append('end Bct.Gen.EffectsRng')
     write_if_changed(path, '\n'.join(L) + '\n')
@@ -1875,6 +2231,9 @@ def emit_alias(res, path):
     L.append('def fuel : Nat := %d' % res['alias_fuel'])
     L.append('')
     for n, d in res['alias'].items():
+        if d.get('selftest'):
+            L.append('theorem selftest_%s : safe table fuel %d = %s := by decide +kernel' % (n, d['id'], 'false' if d['selftest'] == 'reject' else 'true'))
+            continue
         if not d['public'] or n in res['not_covered_static']:
             continue
         if d['variant'] is False:
@@ -1900,11 +2259,13 @@ def summary(res):
     a, r = res['alias'], res['rng']
     return {'rng_functions': len(r), 'rng_seedful': sum(1 for d in r.values() if d['has_seed']),
             'rng_failing': {n: d['fails'] for n, d in r.items() if d['fails']},
-            'alias_functions': len(a),
+            'alias_functions': sum(1 for d in a.values() if d['key'][0] != SELFTEST_MODULE),
             'alias_public_obligations': sum(1 for n, d in a.items() if d['public'] and n not in res['not_covered_static']),
             'alias_failing': {n: d['fails'] for n, d in a.items() if d['fails'] and d['public'] and n not in res['not_covered_static']},
             'alias_nodes': sum(d['nodes'] for d in a.values()), 'alias_fuel': res['alias_fuel'],
             'unknown_constructs': len(res['unknown_constructs']),
+            'selftest_failures': res['selftest_failures'],
+            'selftests': sum(1 for d in a.values() if d.get('selftest')) + sum(1 for d in res['selftest_rng'].values() if d['expect']),
             'not_covered_static': res['not_covered_static'],
             'seedless_public_functions_with_global_draws': res['seedless_public_functions_with_global_draws']}
 
